@@ -570,6 +570,93 @@ def run_ops(oplist, stream='?', result=None, batch=4000):
     return result
 
 
+def still_disagrees(op):
+    """does the real code still differ from the model on this op? (one driver call)"""
+    try:
+        real = with_alarm(lambda: ops.run_real(op))
+        json.dumps(real)
+        ans = run_driver([op])[0]
+    except Exception:  # noqa: BLE001 - a candidate outside the transport / model is not a smaller witness
+        return None
+    if isinstance(ans, dict) and 'driver_error' in ans:
+        return None
+    c = ops.compare(op, real, ans)
+    if c == 'skip' or c:
+        return None
+    return (real, ans)
+
+
+def _candidates(v):
+    """smaller variants of a JSON value, most aggressive first"""
+    if isinstance(v, list):
+        n = len(v)
+        if n > 1:
+            yield v[:n // 2]
+            yield v[n // 2:]
+        for i in range(n):
+            yield v[:i] + v[i + 1:]
+        for i in range(n):
+            for c in _candidates(v[i]):
+                yield v[:i] + [c] + v[i + 1:]
+    elif isinstance(v, dict):
+        for k in list(v):
+            if k in ('op', 'mode', 'container', 'real_container', 'indentSpelling') or \
+                    (k in ('model', 'key') and not isinstance(v[k], dict)):
+                continue        # enumerations of the protocol, not data
+            for c in _candidates(v[k]):
+                d = dict(v)
+                d[k] = c
+                yield d
+    elif isinstance(v, str):
+        n = len(v)
+        if n > 1:
+            yield v[:n // 2]
+            yield v[n // 2:]
+            for i in range(n):
+                yield v[:i] + v[i + 1:]
+
+
+def _signature(both):
+    real, ans = both
+
+    def cls(x):
+        if isinstance(x, dict) and 'err' in x:
+            return 'err:' + str(x['err'][0])
+        if isinstance(x, dict) and 'ok' in x:
+            return 'ok'
+        return 'value'
+    return cls(real), cls(ans)
+
+
+def shrink_op(op, budget_s=25.0):
+    """greedy structural shrinking of an operation on which model and code disagree; every
+    accepted step still disagrees (checked on the real code and the model), so the result is a
+    smaller witness of the same broken correspondence, not necessarily of the same branch"""
+    t0 = time.time()
+    cur = op
+    cur_size = len(json.dumps(cur))
+    first = still_disagrees(op)
+    if first is None:
+        return op, 0
+    sig = _signature(first)     # keep the kind of disagreement (ok vs error class on each side)
+    progress = True
+    steps = 0
+    while progress and time.time() - t0 < budget_s:
+        progress = False
+        for cand in _candidates(cur):
+            if time.time() - t0 >= budget_s:
+                break
+            size = len(json.dumps(cand))
+            if size >= cur_size:
+                continue
+            both = still_disagrees(cand)
+            if both is not None and _signature(both) == sig:
+                cur, cur_size, progress = cand, size, True
+                steps += 1
+                break
+    return cur, steps
+
+
 def run_stream(name, n, seed, result=None):
     rng = random.Random(f'{seed}:{name}')
     f = STREAMS[name]
